@@ -16,4 +16,6 @@ CONSTANTS
   BugJsonAlias = FALSE
   BugEntryPointWritesTables = FALSE
   BugCopyDiffers = FALSE
+  BugMemoPublishedEarly = FALSE
+  BugCacheIgnoresContext = FALSE
 CHECK_DEADLOCK FALSE
